@@ -10,6 +10,7 @@
 extern BUFR_Tables   *cur_tables;
 extern BUFR_Template *cur_tmpl;
 extern BUFR_Dataset  *cur_dts;
+extern unsigned char *bvp_last_msg; extern int bvp_last_msg_len;
 void bvp_fmt_nodes(BufrDescriptor **pb, int count);
 
 static BUFR_Dataset *dec_dts = NULL;
@@ -365,6 +366,15 @@ static int dd_merge(int argc, char **argv)
 static int ds_decodemsg(int argc, char **argv)
    {
    unsigned char *buf; int n; BUFR_Message *m = NULL; int rc;
+   if (argc == 2 && strcmp(argv[1], "@") == 0)
+      {
+      /* the message the last ds.msg wrote */
+      if (!cur_tables || bvp_last_msg_len < 0) { fputs("bad-op", bvp_out); return 0; }
+      n = bvp_last_msg_len;
+      buf = (unsigned char *)malloc((size_t)n + 1);
+      if (n) memcpy(buf, bvp_last_msg, (size_t)n);
+      }
+   else
    if (argc != 2 || !cur_tables || (n = bvp_parse_hex(argv[1], &buf)) < 0) { fputs("bad-op", bvp_out); return 0; }
    codec_reset();
    rc = bufr_memread_message((char *)buf, n, &m);
